@@ -104,6 +104,13 @@ def unexcused_report(stderr, stdout, stats=None):
     for b in stderr.split("=================="):
         if "WARNING: ThreadSanitizer" not in b:
             continue
+        if "heap-use-after-free" in b and "Location is heap block of size 0 " in b:
+            # an access "inside" a block of size 0: cJSON_PrintBuffered with prebuffer 0 under hooks without realloc copies one
+            # byte out of its zero-length first block (one thread, no other thread involved; the detector merely sees the stale
+            # state of whoever used that address before).  Not an interaction between threads, hence not a C20 matter.
+            if stats is not None:
+                stats.cls("zero_size_block_report_not_a_C20_matter")
+            continue
         if "data race" in b and "Location is global" in b and merged:
             # the racing accesses: "Write of size 8 at 0x... by thread T1:" / "Previous read of size 8 at 0x... by main thread:"
             accs = [(int(a.group(2), 16), int(a.group(1))) for a in re.finditer(r"of size (\d+) at (0x[0-9a-f]+) by", b)]
@@ -127,7 +134,7 @@ class C20(Prop):
             "duplicate, compare, minify, edits (add/detach/replace/insert/set), JSON pointer get/find, patch generate/apply, merge patch "
             "apply/generate, sort, delete; never cJSON_GetErrorPtr / cJSON_InitHooks / setlocale. A driver built with gcc -fsanitize=thread "
             "(library and driver instrumented) runs every program alone (reference digest of all results) and then all of them concurrently "
-            "behind a barrier for 3 rounds (the first one before anything else has used the library in the process), and finally 2-4 times in ONE thread with the calls of all programs interleaved in a drawn order (schedule owned by the harness, call granularity). In half of the cases custom allocation hooks (thread-safe, no realloc) are installed before the threads start, and a thread's k-th request inside core API calls may be refused (the solo run refuses the same request). Texts come from a fixed pool and from the shared document generator (all escape kinds, surrogate pairs, long strings, BOM). Oracle: no ThreadSanitizer report other than a data race whose every access lies in the documented global error position "
+            "behind a barrier for 3 rounds (the first one before anything else has used the library in the process), and finally 2-4 times in ONE thread with the calls of all programs interleaved in a drawn order (schedule owned by the harness, call granularity). In half of the cases custom allocation hooks (thread-safe, no realloc) are installed before the threads start, and a thread's k-th request inside core API calls may be refused (the solo run refuses the same request); in a third of those also inside utility calls, with no verdict when a program does not survive that alone (tried in a child process). Texts come from a fixed pool and from the shared document generator (all escape kinds, surrogate pairs, long strings, BOM). Oracle: no ThreadSanitizer report other than a data race whose every access lies in the documented global error position "
             "(located by behaviour: the words of the data segment that track the error offset of two failing probe parses; no symbol name is used) and every concurrent digest equals the solo digest. non-trivial = >= 2 threads that each "
             "execute a parse and a print of a tree containing numbers; distinct by case hash")
     ASSUMPTIONS = ["the harness does not own the scheduler: race detection is happens-before based (both accesses must be executed, not interleaved), "
@@ -144,6 +151,8 @@ class C20(Prop):
                                       # custom allocation hooks installed before the threads start (no realloc inside the library then);
                                       # failat[i] > 0: the i-th thread's k-th request inside core API calls is refused
                                       "hooks": st.booleans(),
+                                      # refuse requests inside cJSON_Utils calls as well (no verdict if a program does not survive that alone)
+                                      "failutils": gens.chance(3),
                                       "failat": st.lists(st.one_of(st.just(0), st.integers(1, 40), st.integers(1, 400)), min_size=6, max_size=6)})
 
     def run_case(self, lib, case, stats):
@@ -156,6 +165,8 @@ class C20(Prop):
         if case.get("hooks"):
             lines.append("hooks 1")
             stats.cls("custom_hooks")
+            if case.get("failutils"):
+                lines.append("failutils 1")
             for tid in range(len(case["threads"])):
                 k = (case.get("failat") or [0] * 6)[tid % 6]
                 if k:
@@ -188,6 +199,11 @@ class C20(Prop):
             stats.cls("nontrivial")
             stats.nontriv(case, {"threads": nthr, "ops_per_thread": [len(t) for t in case["threads"]],
                                  "first_thread": ["%s %d %d %d" % (o[0], o[1], o[2], o[3]) for o in case["threads"][0][:10]]})
+        if "SOLO-FAILS" in p.stdout:
+            stats.cls("utility_fault_not_survived_alone_(no_verdict)")
+            return
+        if case.get("hooks") and case.get("failutils"):
+            stats.cls("allocation_failure_inside_utilities")
         bad_report = unexcused_report(p.stderr, p.stdout, stats)
         if bad_report:
             first = [l for l in bad_report.splitlines() if "WARNING: ThreadSanitizer" in l or l.strip().startswith("#0") or "Location is" in l or "SUMMARY" in l]
